@@ -19,8 +19,8 @@ VERIF = os.path.dirname(os.path.dirname(os.path.abspath(__file__)))
 sys.path.insert(0, VERIF)
 from harness import core, gen_code  # noqa: E402
 
-COPY = "/tmp/mut_E3"
-SCRATCH = "/tmp/mut_E3_out"
+COPY = os.environ.get("MUT_COPY", "/tmp/mut_E3")          # MUT_COPY=/tmp/mut_tr5 when several agents run the tool at once
+SCRATCH = COPY + "_out"
 
 # (name, kind, file, [(old text, new text)], Props id, expectation)
 MUTATIONS = [
@@ -256,6 +256,106 @@ MUTATIONS = [
      [("home_positions = home_positions - cells_away.dot(cell)", "home_positions = home_positions + cells_away.dot(cell)")], "C01", "fail"),
     ("near window: cell.dot(cells_away) (columns instead of rows)", "breaking", "mofun/mofun.py",
      [("home_positions = home_positions - cells_away.dot(cell)", "home_positions = home_positions - cell.dot(cells_away)")], "C01", "fail"),
+    # ---- fifth batch: replace_pattern_in_structure
+    ("unchanged (fifth batch)", "control", None, [], "C04:5", "all pass"),
+    ("replace: round -> int (truncation: outside the subset)", "unsupported", "mofun/mofun.py",
+     [("k=round(replace_fraction * len(match_positions))", "k=int(replace_fraction * len(match_positions))")], "C04:5", "Unsupported"),
+    ("replace: sample size from one match fewer", "breaking", "mofun/mofun.py",
+     [("k=round(replace_fraction * len(match_positions))", "k=round(replace_fraction * (len(match_positions) - 1))")], "C04:5", "fail"),
+    ("replace: sample size rounded up (round(x + 0.5))", "breaking", "mofun/mofun.py",
+     [("k=round(replace_fraction * len(match_positions))", "k=round(replace_fraction * len(match_positions) + 0.5)")], "C04:5", "fail"),
+    ("replace: sample branch also for fraction 1 (< -> <=)", "breaking", "mofun/mofun.py",
+     [("if replace_fraction < 1.0:", "if replace_fraction <= 1.0:")], "C04:5", "fail"),
+    ("replace: factors of the sample size swapped, guard written as 1.0 > f", "neutral", "mofun/mofun.py",
+     [("k=round(replace_fraction * len(match_positions))", "k=round(len(match_positions) * replace_fraction)"),
+      ("if replace_fraction < 1.0:", "if 1.0 > replace_fraction:")], "C04:5", "pass"),
+    ("unchanged (fifth batch, loop body)", "control", None, [], "C07:5", "all pass"),
+    ("replace loop: linker set by union (- -> |)", "breaking", "mofun/mofun.py",
+     [("to_delete_linker = set(match_indices[m_i]) - set(structure_index_map.values())", "to_delete_linker = set(match_indices[m_i]) | set(structure_index_map.values())")], "C07:5", "fail"),
+    ("replace loop: retained atoms deleted too (difference dropped)", "breaking", "mofun/mofun.py",
+     [("to_delete_linker = set(match_indices[m_i]) - set(structure_index_map.values())", "to_delete_linker = set(match_indices[m_i])")], "C07:5", "fail"),
+    ("replace loop: linker set minus the KEYS of the map", "breaking", "mofun/mofun.py",
+     [("set(structure_index_map.values())", "set(structure_index_map.keys())")], "C07:5", "Unsupported"),
+    ("replace loop: `or ignore…` dropped (the opt-out is ignored)", "breaking", "mofun/mofun.py",
+     [("if (to_delete.isdisjoint(to_delete_linker) or ignore_atoms_should_not_be_deleted_twice):", "if (to_delete.isdisjoint(to_delete_linker)):")], "C07:5", "fail"),
+    ("replace loop: `or` -> `and`", "breaking", "mofun/mofun.py",
+     [("if (to_delete.isdisjoint(to_delete_linker) or ignore_atoms_should_not_be_deleted_twice):", "if (to_delete.isdisjoint(to_delete_linker) and ignore_atoms_should_not_be_deleted_twice):")], "C07:5", "fail"),
+    ("replace loop: overlap never raises (else branch merges too)", "breaking", "mofun/mofun.py",
+     [("                raise AtomsShouldNotBeDeletedTwice()", "                to_delete |= set(to_delete_linker)")], "C07:5", "fail"),
+    ("replace loop: the merge is dropped on success", "breaking", "mofun/mofun.py",
+     [("                to_delete |= set(to_delete_linker)\n", "                pass\n")], "C07:5", "fail"),
+    ("replace loop: index map built for replace_all too", "breaking", "mofun/mofun.py",
+     [("            if not replace_all:\n                structure_index_map = {k:", "            if True:\n                structure_index_map = {k:")], "C07:5", "fail"),
+    ("replace loop: index map from the FIRST match for every match", "breaking", "mofun/mofun.py",
+     [("structure_index_map = {k: match_indices[m_i][v] for", "structure_index_map = {k: match_indices[0][v] for")], "C07:5", "fail"),
+    ("replace loop: index map with keys and values exchanged", "breaking", "mofun/mofun.py",
+     [("structure_index_map = {k: match_indices[m_i][v] for k,v in", "structure_index_map = {v: match_indices[m_i][k] for k,v in")], "C07:5", "fail"),
+    ("replace: empty branch deletes only the first atom of every match", "breaking", "mofun/mofun.py",
+     [("to_delete |= set([idx for match in match_indices for idx in match])", "to_delete |= set([match[0] for match in match_indices])")], "C07:5", "fail"),
+    ("replace: empty-replacement test == 0 -> == 1", "breaking", "mofun/mofun.py",
+     [("    if len(replace_pattern) == 0:", "    if len(replace_pattern) == 1:")], "C07:5", "fail"),
+    ("replace loop: operands of `or` swapped, isdisjoint the other way round, comprehension variables renamed, test `0 == len(…)`",
+     "neutral", "mofun/mofun.py",
+     [("if (to_delete.isdisjoint(to_delete_linker) or ignore_atoms_should_not_be_deleted_twice):", "if (ignore_atoms_should_not_be_deleted_twice or to_delete_linker.isdisjoint(to_delete)):"),
+      ("structure_index_map = {k: match_indices[m_i][v] for k,v in replace2search_pattern_map.items()}", "structure_index_map = {a: match_indices[m_i][b] for a,b in replace2search_pattern_map.items()}"),
+      ("to_delete |= set([idx for match in match_indices for idx in match])", "to_delete |= set([i for t in match_indices for i in t])"),
+      ("    if len(replace_pattern) == 0:", "    if 0 == len(replace_pattern):")], "C07:5", "pass"),
+    ("replace loop: |= written out, set() around the linker dropped, list() inserted", "neutral", "mofun/mofun.py",
+     [("                to_delete |= set(to_delete_linker)\n", "                to_delete = to_delete | to_delete_linker\n"),
+      ("            to_delete_linker = set(match_indices[m_i]) - set(structure_index_map.values())\n",
+       "            to_delete_linker = set(list(match_indices[m_i])) - set(structure_index_map.values())\n")], "C07:5", "pass"),
+    ("unchanged (fifth batch, placement)", "control", None, [], "C05:5", "all pass"),
+    ("replace placement: the two pre-translations exchanged", "breaking", "mofun/mofun.py",
+     [("    replace_pattern.translate(-search_pattern.positions[0])\n    search_pattern.translate(-search_pattern.positions[0])\n",
+       "    search_pattern.translate(-search_pattern.positions[0])\n    replace_pattern.translate(-search_pattern.positions[0])\n")], "C05:5", "fail"),
+    ("replace placement: replace pattern moved by +P[0]", "breaking", "mofun/mofun.py",
+     [("    replace_pattern.translate(-search_pattern.positions[0])\n", "    replace_pattern.translate(search_pattern.positions[0])\n")], "C05:5", "fail"),
+    ("replace placement: replace pattern moved by its OWN first atom", "breaking", "mofun/mofun.py",
+     [("    replace_pattern.translate(-search_pattern.positions[0])\n", "    replace_pattern.translate(-replace_pattern.positions[0])\n")], "C05:5", "fail"),
+    ("replace placement: replace pattern not pre-translated", "breaking", "mofun/mofun.py",
+     [("    replace_pattern.translate(-search_pattern.positions[0])\n", "")], "C05:5", "fail"),
+    ("Atoms.translate: -= instead of +=", "breaking", "mofun/atoms.py",
+     [("            self.positions += delta\n", "            self.positions -= delta\n")], "C05:5", "fail"),
+    ("replace placement: wrap modulo the cell lengths (% np.diag(cell))", "unsupported", "mofun/mofun.py",
+     [("new_atoms.positions.dot(np.linalg.inv(cell)) % 1.0).dot(cell)", "new_atoms.positions.dot(np.linalg.inv(cell)) % np.diag(cell)).dot(cell)")], "C05:5", "Unsupported"),
+    ("replace placement: wrapped FRACTIONAL coordinates stored (second .dot(cell) dropped)", "breaking", "mofun/mofun.py",
+     [("new_atoms.positions = (new_atoms.positions.dot(np.linalg.inv(cell)) % 1.0).dot(cell)", "new_atoms.positions = (new_atoms.positions.dot(np.linalg.inv(cell)) % 1.0)")], "C05:5", "fail"),
+    ("replace placement: cell instead of its inverse", "breaking", "mofun/mofun.py",
+     [("new_atoms.positions.dot(np.linalg.inv(cell)) % 1.0", "new_atoms.positions.dot(cell) % 1.0")], "C05:5", "fail"),
+    ("replace placement: transposed inverse (columns instead of rows)", "breaking", "mofun/mofun.py",
+     [("new_atoms.positions.dot(np.linalg.inv(cell)) % 1.0", "new_atoms.positions.dot(np.linalg.inv(cell).T) % 1.0")], "C05:5", "fail"),
+    ("replace placement: shift of 1e-9 before the modulo", "breaking", "mofun/mofun.py",
+     [("new_atoms.positions.dot(np.linalg.inv(cell)) % 1.0", "(new_atoms.positions.dot(np.linalg.inv(cell)) + 1e-9) % 1.0")], "C05:5", "fail"),
+    ("replace placement: delta through a local, `% 1`, inverse bound to a local", "neutral", "mofun/mofun.py",
+     [("    replace_pattern.translate(-search_pattern.positions[0])\n    search_pattern.translate(-search_pattern.positions[0])\n",
+       "    shift = -search_pattern.positions[0]\n    replace_pattern.translate(shift)\n    search_pattern.translate(shift)\n"),
+      ("            new_atoms.positions = (new_atoms.positions.dot(np.linalg.inv(cell)) % 1.0).dot(cell)",
+       "            new_atoms.positions = (new_atoms.positions.dot(np.linalg.inv(cell)) % 1).dot(cell)")], "C05:5", "pass"),
+    ("unchanged (fifth batch, find_unchanged_atom_pairs)", "control", None, [], "C08:5", "all pass"),
+    ("find_unchanged_atom_pairs: < -> <=", "unsupported", "mofun/atoms.py",
+     [("if norm(np.array(p2) - p1) < max_delta and", "if norm(np.array(p2) - p1) <= max_delta and")], "C08:5", "Unsupported"),
+    ("find_unchanged_atom_pairs: break removed (every partner is appended)", "breaking", "mofun/atoms.py",
+     [("                match_pairs.append((i,j))\n                break\n", "                match_pairs.append((i,j))\n")], "C08:5", "fail"),
+    ("find_unchanged_atom_pairs: element test dropped", "breaking", "mofun/atoms.py",
+     [("if norm(np.array(p2) - p1) < max_delta and orig_structure.elements[i] == final_structure.elements[j]:", "if norm(np.array(p2) - p1) < max_delta:")], "C08:5", "fail"),
+    ("find_unchanged_atom_pairs: and -> or", "breaking", "mofun/atoms.py",
+     [("< max_delta and orig_structure.elements[i]", "< max_delta or orig_structure.elements[i]")], "C08:5", "fail"),
+    ("find_unchanged_atom_pairs: pairs appended as (j, i)", "breaking", "mofun/atoms.py",
+     [("match_pairs.append((i,j))", "match_pairs.append((j,i))")], "C08:5", "fail"),
+    ("find_unchanged_atom_pairs: twice the tolerance", "breaking", "mofun/atoms.py",
+     [("if norm(np.array(p2) - p1) < max_delta and", "if norm(np.array(p2) - p1) < 2 * max_delta and")], "C08:5", "fail"),
+    ("find_unchanged_atom_pairs: default max_delta 1e-5 -> 1e-4", "breaking", "mofun/atoms.py",
+     [("def find_unchanged_atom_pairs(orig_structure, final_structure, max_delta=1e-5):", "def find_unchanged_atom_pairs(orig_structure, final_structure, max_delta=1e-4):")], "C08:5", "fail"),
+    ("find_unchanged_atom_pairs: locals renamed, element test first, difference without np.array", "neutral", "mofun/atoms.py",
+     [("    for i, p1 in enumerate(orig_structure.positions):\n        for j, p2 in enumerate(final_structure.positions):\n            if norm(np.array(p2) - p1) < max_delta and orig_structure.elements[i] == final_structure.elements[j]:\n                match_pairs.append((i,j))\n",
+       "    for a, pa in enumerate(orig_structure.positions):\n        for b, pb in enumerate(final_structure.positions):\n            if final_structure.elements[b] == orig_structure.elements[a] and norm(pb - pa) < max_delta:\n                match_pairs.append((a,b))\n")], "C08:5", "pass"),
+    ("unchanged (fifth batch, atoms_of_type)", "control", None, [], "C02:5", "all pass"),
+    ("atoms_of_type: == -> !=", "breaking", "mofun/helpers.py",
+     [("return [i for i, t in enumerate(types) if t == element]", "return [i for i, t in enumerate(types) if t != element]")], "C02:5", "fail"),
+    ("atoms_of_type: filter dropped (every atom is a start atom)", "breaking", "mofun/helpers.py",
+     [("return [i for i, t in enumerate(types) if t == element]", "return [i for i, t in enumerate(types)]")], "C02:5", "fail"),
+    ("atoms_of_type: variables renamed, operands of == swapped", "neutral", "mofun/helpers.py",
+     [("return [i for i, t in enumerate(types) if t == element]", "return [k for k, e in enumerate(types) if element == e]")], "C02:5", "pass"),
     # ---- leaving the subset
     ("max_bond_length: while loop added (outside the subset)", "unsupported", "mofun/detect_bonds.py",
      [('    """Return the maximum length of a bond between two elements"""\n', '    while False:\n        pass\n')], "C17", "Unsupported"),
@@ -288,7 +388,8 @@ def scratch_file(ids, code_text):
             visit(m)
         order.append(mod)
     for i in ids:
-        visit_props = "MofunModel.Props.%sCode" % i
+        # `C04` names Props/C04Code.lean, `C04:5` names Props/C04Code5.lean (the files of the fifth batch)
+        visit_props = "MofunModel.Props.%sCode%s" % tuple((i + ":").split(":")[:2])
         for m in _IMPORT.findall(open(os.path.join(core.LEAN, *visit_props.split(".")) + ".lean").read()):
             visit(m)
         order.append(visit_props)
